@@ -857,6 +857,13 @@ class PathEval:
                 f = t["func"]
                 args = tuple(self.operand(st, a) for a in t["args"])
                 path = f["path"]
+                if path.endswith("box_assume_init_into_vec_unsafe"):
+                    # `vec![a, b]` (current expansion: the array is written into an uninitialised box, which is then turned into a Vec):
+                    # evaluated as the older expansion `<[_]>::into_vec(Box::new([a, b]))`, i.e. into_vec([a, b])
+                    arr = [e.value for e in events if e.kind == "store" and e.bb == bb and isinstance(e.value, tuple) and e.value[:2] == ("agg", "array")]
+                    if arr:
+                        path = "alloc::slice::<impl [T]>::into_vec"
+                        args = (arr[-1],)
                 site = None if is_pure(path) else bb
                 val = ("call", path, tuple(f.get("gargs", ())), args, site)
                 folded = _fold_try(path, args, tuple(f.get("gargs", ())))
